@@ -796,6 +796,7 @@ func isConfigGetter(n string) bool {
 }
 
 var c11Canaries = []Canary{
+	{Name: "r5-extension-command-unrestricted", ExpectKey: "C11.R5#extension-command", Edits: []Edit{{File: "config/git_fetcher.go", Find: "\t\t\t\tcase \"clean\":\n\t\t\t\t\tif gc.OnlySafeKeys {\n\t\t\t\t\t\tignored = append(ignored, key)\n\t\t\t\t\t\tcontinue\n\t\t\t\t\t}\n\t\t\t\t\text.Clean = val", Repl: "\t\t\t\tcase \"clean\":\n\t\t\t\t\text.Clean = val"}}},
 	{Name: "r4-duplicate-values-dropped", ExpectKey: "C11.R2#readGitConfig:every", Edits: []Edit{{File: "config/git_fetcher.go", Find: "\t\t\tvals[key] = append(vals[key], val)", Repl: "\t\t\tif len(vals[key]) > 0 && vals[key][len(vals[key])-1] == val {\n\t\t\t\tcontinue\n\t\t\t}\n\t\t\tvals[key] = append(vals[key], val)"}}},
 	{Name: "add-unsafe-safe-key", ExpectKey: "C11.R1#safeKeys[\"lfs.standalonetransferagent\"]", Edits: []Edit{{File: "config/git_fetcher.go", Find: "	\"lfs.url\",\n}", Repl: "	\"lfs.url\",\n	\"lfs.standalonetransferagent\",\n}"}}},
 	{Name: "revision-source-unrestricted", ExpectKey: "C11.R3", Edits: []Edit{{File: "git/config.go", Find: "	out, err := c.gitConfig(\"-l\", \"--blob\", revision)\n	if err != nil {\n		return nil, err\n	}\n	return ParseConfigLines(out, true), nil", Repl: "	out, err := c.gitConfig(\"-l\", \"--blob\", revision)\n	if err != nil {\n		return nil, err\n	}\n	return ParseConfigLines(out, false), nil"}}},
